@@ -711,7 +711,7 @@ func runClobberCase(valid, csvPath string, c *ClobberCase, rep *Report) {
 	var outcome string
 	switch c.Writer {
 	case "mem":
-		outcome = watchdog(20*time.Second, func() string {
+		outcome = watchdog(60*time.Second, func() string {
 			w := updog.NewIndexWriter(path)
 			w.AddRow(map[string]string{"a": "1"})
 			w.AddRow(map[string]string{"a": "2", "b": "x"})
